@@ -221,6 +221,11 @@ class Circuit:
                 # normal simtask exit is not possible
                 msg = f"The simulation task failed with error: {self._simtask.exception()}"
             raise EdzedInvalidState(msg)
+        if self._error is not None:
+            # initialized, but already failing (e.g. in the very first evaluation)
+            # and the simulation task is still busy with the cleanup
+            raise EdzedInvalidState(
+                f"The simulation is terminating due to error: {self._error}")
 
     def check_not_finalized(self) -> None:
         """Raise an error if the circuit has been finalized."""
